@@ -198,6 +198,12 @@ func runC16History(c *Ctx, hi int) {
 	klog := &keyLog{}
 	stdPool := gx509.NewCertPool()
 	nServers := 1 + r.Intn(3)
+	// the eviction template is only an eviction with more names than the cache holds, and a wrongly kept entry only shows
+	// when the server behind the other name can open the ticket: those histories get what they need, not what the dice say
+	evictionTemplate := hi%8 == 1
+	if evictionTemplate {
+		nServers = 2 + (hi/8)%2
+	}
 	var servers []*c16Server
 	for i := 0; i < nServers; i++ {
 		sv := c16MkServer(pki, gm, r, string(rune('A'+i)), klog, stdPool)
@@ -208,6 +214,9 @@ func runC16History(c *Ctx, hi int) {
 		servers = append(servers, sv)
 	}
 	farm := nServers > 1 && r.Intn(2) == 0
+	if evictionTemplate {
+		farm = (hi/32)%4 != 3 // most with shared ticket keys; a different digit of hi than the two above
+	}
 	if farm { // a server farm: different certificates, shared ticket keys
 		for i, sv := range servers[1:] {
 			sv.keys = append([][32]byte{}, servers[0].keys...)
@@ -269,6 +278,13 @@ func runC16History(c *Ctx, hi int) {
 		}
 	}
 	capacity := 1 + r.Intn(3)
+	if evictionTemplate {
+		capacity = 1 + (hi/16)%2
+		if capacity >= nServers {
+			capacity = nServers - 1
+		}
+		rep.Count(fmt.Sprintf("eviction_histories/servers=%d/capacity=%d/shared_ticket_keys=%v", nServers, capacity, farm), 1)
+	}
 	cache := &logCache{inner: gmtls.NewLRUClientSessionCache(capacity)}
 	cliSuites := append([]uint16{}, servers[0].suites...)
 	tickets := map[string]*c16Ticket{}
